@@ -133,6 +133,7 @@ static int name_ok(const unsigned char *n, size_t l)
 	if (l == 1 && n[0] == '.') return 0;
 	if (l == 2 && n[0] == '.' && n[1] == '.') return 0;
 	for (size_t i = 0; i < l; i++) if (n[i] == '/' || n[i] == 0) return 0;
+	if (l == 10 && !memcmp(n, "filterconf", 10)) return 0;	/* the marker file */
 	return 1;
 }
 
